@@ -88,3 +88,9 @@ AMEND.update({
         technique="MIR->SMT-LIB2 (z3, cvc5 cross-check best effort) for the mint arithmetic and rank rule + Kani/CBMC execution of the real rank update",
         engine="mir2smt+kani"),
 })
+
+AMEND.update({
+    "C08": dict(
+        text_append="(d) the real PositionExt::pending_funding_fees at u8 for all values: the payer's funding fee is unpacked rounded UP and both claimable amounts rounded DOWN from size*index_diff/(adjustment*UNIT), and a position index ahead of the market index is an error (harness c08_pending_funding_fees_rounding_u8 in harness/model, shared with C12; added after a seeded change of the claimable rounding was missed by the aggregate pack/unpack harnesses).",
+        note_append="Clause (d) runs in the harness/model crate (plain-struct VMarket/VPosition)."),
+})
